@@ -323,6 +323,24 @@ def clause_keyring(prog, rep):
     for f in [g for g in prog.nontest_fns(SQ) if last_seg(g.self_adt) == "MdkSqliteStorage" and g.is_pub() and g.name.startswith("new")]:
         rep.check(not dele.fn(f.path), "keyring", "%s/never-deletes-key" % f.name, "opening a database never deletes a keyring entry",
                   "constructor %s can delete the stored database key: a key already in use by an existing database is thrown away and regenerated" % f.name, f.loc())
+    # "no key yet" is what the keyring answers with NoEntry — nothing else: a read that fails for another reason (platform failure,
+    # ambiguous entries) must not be taken for an absent key, or the creating path generates a fresh key over the one in use
+    n_none = 0
+    for f in prog.nontest_fns(SQ):
+        if f.is_closure() or not any(c.name in ("get_secret", "get_password") for c in f.live_calls()):
+            continue
+        for bb, st in f.aggregates("Option", "None"):
+            # a None that becomes the function's Ok result
+            if not any(s2.get("k") == "agg" and s2.get("variant") == "Ok" and s2.get("o") and "p" in s2["o"][0] and s2["o"][0]["p"][0] in
+                       f.flows_from({st["d"][0]}, through_calls=False) | {st["d"][0]} for _, s2 in f.stmts()):
+                continue
+            n_none += 1
+            rep.check(A.arm_only(prog, f, bb, "Error", {"NoEntry"}), "keyring", "%s/absent-only-on-NoEntry" % f.name,
+                      "the lookup answers \"no key stored\" only on the keyring's NoEntry",
+                      "%s answers Ok(None) (\"no key stored\") for keyring errors other than NoEntry: a failing read on the creating path makes "
+                      "get_or_create generate a new key and store it over the one existing databases were encrypted with" % f.label(),
+                      "%s:%s" % (f.file, st.get("line")))
+    rep.floor("keyring", "\"no key stored\" answers of the keyring lookup", n_none, 1)
     # only the unencrypted constructor passes None as key
     # (which Option<EncryptionConfig> values reach the test that decides whether the fresh connection is keyed, and where they are built)
     none_callers = []
